@@ -314,6 +314,53 @@ def first_level(cfg, seed, stream, horizon):
     return out
 
 
+def geometry_shard(_):
+    """Bin geometry for every (binmin, binmax, nbins) on a grid whose width divides [0,1]: construct only, no run."""
+    from fractions import Fraction as F
+    acc = core.Acc()
+    S, W = mods()
+    for nb in range(1, 11):
+        for lo10 in range(0, 20):
+            for hi10 in range(lo10 + 1, 21):
+                lo, hi = F(lo10, 20), F(hi10, 20)
+                width = (hi - lo) / nb
+                if (1 / width).denominator != 1:
+                    continue
+                nact = int(1 / width)
+                if (lo / width).denominator != 1:
+                    continue        # the requested range must itself be a union of bins of the partition
+                case = {"kind": "geometry", "nbins": nb, "binmin": float(lo), "binmax": float(hi)}
+                acc.states += 1
+                acc.traces += 1
+                acc.transitions += 1
+                acc.evaluations += 1
+                try:
+                    with core.quiet():
+                        wl = W.WangLandauMachine("KKEEGG", "/mem", nbins=nb, binmin=float(lo), binmax=float(hi), flatchk=4)
+                    cts = [float(x) for x in wl.getBinCenters()]
+                    rmin, rmax = int(wl.relevant_min), int(wl.relevant_max)
+                except Exception as e:  # noqa
+                    acc.viol("geometry-raises", "WangLandauMachine(nbins=%d, [%s,%s]) raised %r" % (nb, lo, hi, e), case)
+                    continue
+                exp = [float(F(2 * i + 1, 2 * nact)) for i in range(nact)]
+                acc.out((nact, rmin, rmax))
+                if nact > 1:
+                    acc.nontrivial += 1
+                if len(cts) != nact or any(abs(a - b) > 1e-12 for a, b in zip(cts, exp)):
+                    acc.viol("bin-centres", "nbins=%d range [%s,%s]: centres %r, midpoints of the equal partition into %d bins are %r"
+                             % (nb, lo, hi, cts, nact, exp), case)
+                    continue
+                erm = int(lo / width)
+                if (rmin, rmax) != (erm, erm + nb - 1):
+                    acc.viol("range-bins", "nbins=%d range [%s,%s]: range bins %d..%d, expected %d..%d"
+                             % (nb, lo, hi, rmin, rmax, erm, erm + nb - 1), case)
+                for i in range(nact):
+                    if wl.indexInsideRelevantRegion(i) != (erm <= i <= erm + nb - 1):
+                        acc.viol("range-test", "nbins=%d range [%s,%s]: bin %d range test wrong" % (nb, lo, hi, i), case)
+                        break
+    return acc
+
+
 def configs(tier):
     e = math.e
     base = [
@@ -321,9 +368,13 @@ def configs(tier):
         dict(name="KKEEGG/2bins[0,.5]/p3/1upd", seq="KKEEGG", nbins=2, binmin=0, binmax=0.5, flatchk=3, flatcrit=0.3, conv=math.exp(0.6)),
         dict(name="KKKEEEGG/1bin/p2/2upd", seq="KKKEEEGG", nbins=1, binmin=0, binmax=1, flatchk=2, flatcrit=0.9, conv=math.exp(0.3)),
     ]
+    base.append(dict(name="KKEEGGGG/3bins[.2,.8]/p3/1upd", seq="KKEEGGGG", nbins=3, binmin=0.2, binmax=0.8, flatchk=3, flatcrit=0.3,
+                     conv=math.exp(0.6)))
     if tier == "quick":
         return base
     more = [
+        dict(name="KKEEGGGG/3bins[.1,.4]/p4/1upd", seq="KKEEGGGG", nbins=3, binmin=0.1, binmax=0.4, flatchk=4, flatcrit=0.3, conv=math.exp(0.6)),
+        dict(name="KEKEGG/2bins[.6,.8]/p2/1upd", seq="KEKEGG", nbins=2, binmin=0.6, binmax=0.8, flatchk=2, flatcrit=0.3, conv=math.exp(0.6)),
         dict(name="KEKEGKE/4bins[0,1]/p8/1upd", seq="KEKEGKE", nbins=4, binmin=0, binmax=1, flatchk=8, flatcrit=0.3, conv=math.exp(0.6)),
         dict(name="KKEEGG/2bins[.5,1]/p5/1upd", seq="KKEEGG", nbins=2, binmin=0.5, binmax=1, flatchk=5, flatcrit=0.5, conv=math.exp(0.6)),
         dict(name="KRDEGS/2bins[0,1]/p1/2upd", seq="KRDEGS", nbins=2, binmin=0, binmax=1, flatchk=1, flatcrit=0.3, conv=math.exp(0.3)),
@@ -337,6 +388,8 @@ def configs(tier):
 
 
 def shard(s):
+    if s[0] == "geometry":
+        return geometry_shard(s)
     acc = core.Acc()
     cfg, bound, seed, stream, horizon, prefixes = s
     mods()
@@ -346,6 +399,9 @@ def shard(s):
 
 def replay(case):
     mods()
+    if case.get("kind") == "geometry":
+        a = geometry_shard(None)
+        return [v for v in a.violations if v["case"] == case]
     runner = Run(case["cfg"])
     t = C.Tape(case["tape"], case["seed"], case["horizon"], None, case["stream"])
     C.ScriptedRandom.tape = t
@@ -380,6 +436,7 @@ def run(tier, seed, t0):
             for i in range(0, len(pre), k):
                 shards.append((cfg, bound, base_seed, stream, 400, pre[i:i + k]))
     shards.sort(key=lambda s: -s[1])
+    shards.append(("geometry", 0))
     acc_plan = {"d<=%d" % b: sum(1 for p_ in plan if p_[2] == b) for b in (1, 2, 3)}
     acc = core.pmap(shard, shards)
     both = acc.extra.get("accepted_steps", 0) > 0 and acc.extra.get("rejected_steps", 0) > 0
@@ -396,8 +453,9 @@ def run(tier, seed, t0):
              "proposal/step/flatcheck events (transitions) and predicts: proposal is a rearrangement with its true kappa and bin, "
              "range test, acceptance probability min(1,exp(g_old-g_new)) / 0 outside, decision <=> u<p, g/H update of the occupied "
              "bin, flat-check schedule, flatness test, f <- sqrt f, H reset, stop <=> f <= threshold; completed runs: returned array, "
-             "DOS/DOS_local/histogram_bins/glog/hlog/seqlog files. First 8 executions per shard and every violating one are replayed "
-             "and their observation logs compared. non-trivial = completed runs" % (
+             "DOS/DOS_local/histogram_bins/glog/hlog/seqlog files. First 4 executions per shard and every violating one are replayed "
+             "and their observation logs compared. Bin geometry alone (centres, range bins, range test) is additionally checked by "
+             "construction for every (nbins<=10, binmin, binmax on a 0.05 grid) whose width divides [0,1]. non-trivial = completed runs" % (
                  len(cfgs), "base tapes per deviation bound: %r" % acc_plan),
         bounds={"configurations": len(cfgs), "horizon": 400, "base_tapes_per_deviation_bound": acc_plan, "float_cap": "representatives", "randbelow_cap": C.CAP},
         exhaustive=True,
